@@ -683,3 +683,120 @@ Proof.
   unfold attr_group_relative_indexes. rewrite <- Hv. rewrite Ef. reflexivity.
 Qed.
 Print Assumptions init_group_ok_view.
+
+(* ====================================================================== *)
+(* 7. Composition with the regenerated verdict (Gen/GroupGen.v)             *)
+(* ====================================================================== *)
+Theorem init_then_verdict_eq funcs checks dtype vtypes cs grp heap g :
+  init_group_gen cs grp = Ok (heap, g) ->
+  dtype = "STATELESS" \/ dtype = "STATEFULL" ->
+  group_ok funcs (map (cfg_gtxn cs) (cg_transactions grp)) ->
+  group_verdict_gen funcs checks dtype vtypes (view_group heap g) =
+  Some (group_verdict funcs checks dtype vtypes (map (cfg_gtxn cs) (cg_transactions grp))).
+Proof.
+  intros H Hd Hok. destruct (init_group_ok_view cs grp heap g H) as (V & _). rewrite V.
+  apply group_verdict_gen_eq; assumption.
+Qed.
+
+(* every transaction-level decision as well *)
+Theorem init_then_txn_vulnerable_eq funcs checks dtype vtypes cs grp heap g t :
+  init_group_gen cs grp = Ok (heap, g) ->
+  group_ok funcs (map (cfg_gtxn cs) (cg_transactions grp)) ->
+  In t (view_group heap g) ->
+  txn_vulnerable_gen funcs checks dtype vtypes (view_group heap g) t =
+  Some (txn_vulnerable funcs checks dtype vtypes (map (cfg_gtxn cs) (cg_transactions grp)) t).
+Proof.
+  intros H Hok Ht. destruct (init_group_ok_view cs grp heap g H) as (V & _). rewrite V in *.
+  apply txn_vulnerable_gen_eq; assumption.
+Qed.
+Print Assumptions init_then_verdict_eq.
+
+(* ====================================================================== *)
+(* 8. init_tealer_from_single_contract                                      *)
+(* ====================================================================== *)
+(* glue of the slice: teal.functions = {contract_name: function k} *)
+Definition single_contract (name ctype : string) (k : nat) : tcontract := mkContract name ctype [(name, k)].
+
+Theorem init_single_gen_spec name ctype k :
+  let teal := single_contract name ctype k in
+  init_single_gen name teal =
+  Ok ([if String.eqb ctype "LogicSig"
+       then mkTobj "Any" true (Some (k, teal)) None None [] false name
+       else mkTobj "Any" false None (Some (k, teal)) None [] false ""],
+      mkGobj [0] [] [] name).
+Proof.
+  cbv zeta. unfold init_single_gen, single_contract, c_functions_objs, sdict_get. cbn [c_contract_type c_functions map find fst snd].
+  rewrite String.eqb_refl. destruct (String.eqb ctype "LogicSig"); reflexivity.
+Qed.
+
+(* the one-member group, as the verdict reads it *)
+Definition single_gtxn (name ctype : string) (k : nat) : gtxn :=
+  if String.eqb ctype "LogicSig" then mkTxn name "Any" true (Some k) None None []
+  else mkTxn "" "Any" false None (Some k) None [].
+
+Theorem init_single_view name ctype k :
+  exists heap g, init_single_gen name (single_contract name ctype k) = Ok (heap, g) /\
+                 view_group heap g = [single_gtxn name ctype k] /\ gr_absolute_indexes g = [] /\ gr_operation_name g = name.
+Proof.
+  eexists. eexists. split; [apply init_single_gen_spec|]. unfold single_gtxn.
+  destruct (String.eqb ctype "LogicSig"); repeat split; reflexivity.
+Qed.
+
+(* logic-sig iff the contract type is LogicSig; then the hypotheses of GroupLemmas.single_logic_sig hold, and the
+   transaction is reported iff some terminating block of the contract's function is unvalidated *)
+Theorem init_single_logic_sig funcs checks dtype vtypes name ctype k f r :
+  nth_error funcs k = Some (f, r) ->
+  let t := single_gtxn name ctype k in
+  (g_logic_sig t = Some k <-> ctype = "LogicSig") /\
+  (g_application t = Some k <-> ctype <> "LogicSig") /\
+  (g_has_logic_sig t = true <-> ctype = "LogicSig") /\
+  (ctype = "LogicSig" -> eligible dtype vtypes t ->
+   (txn_vulnerable funcs checks dtype vtypes [t] t = true <->
+    exists b, fn_leaf_block f b /\ validated_in_block r checks None b = false)).
+Proof.
+  intros Hf. cbv zeta. unfold single_gtxn. destruct (String.eqb ctype "LogicSig") eqn:E.
+  - apply String.eqb_eq in E.
+    split. { split; intros _; [exact E | reflexivity]. }
+    split. { split; [intros X; discriminate | intros X; contradiction]. }
+    split. { split; intros _; [exact E | reflexivity]. }
+    intros _ He. apply (single_logic_sig funcs checks dtype vtypes _ k f r); try reflexivity; assumption.
+  - apply String.eqb_neq in E.
+    split. { split; [intros X; discriminate | intros X; contradiction]. }
+    split. { split; intros _; [exact E | reflexivity]. }
+    split. { split; [intros X; discriminate | intros X; contradiction]. }
+    intros X; contradiction.
+Qed.
+Print Assumptions init_single_logic_sig.
+
+(* ====================================================================== *)
+(* 9. Non-vacuity: a three-transaction configuration                        *)
+(* ====================================================================== *)
+Definition ex_contracts : list (string * tcontract) :=
+  [("ls", mkContract "ls" "LogicSig" [("f", 0)]); ("app", mkContract "app" "ApprovalProgram" [("g", 1)])].
+Definition ex_a := mkGroupConfigTransaction "a" "pay" None None (Some (mkGroupConfigFunctionCall "ls" "f")) (Some 1%Z)
+                     (Some [("b", 1%Z); ("c", 2%Z)]).
+Definition ex_b := mkGroupConfigTransaction "b" "pay" None (Some true) None None (Some [("a", (-1)%Z); ("c", (-1)%Z)]).
+Definition ex_c := mkGroupConfigTransaction "c" "appl" (Some (mkGroupConfigFunctionCall "app" "g")) None None (Some 3%Z) None.
+Definition ex_group := mkGroupConfigGroup "op" [ex_a; ex_b; ex_c].
+
+Example init_group_example :
+  exists heap g,
+    init_group_gen ex_contracts ex_group = Ok (heap, g) /\
+    view_group heap g =
+      [mkTxn "a" "Pay" true (Some 0) None (Some 1%N) [(1%Z, "b"); (2%Z, "c")];
+       mkTxn "b" "Pay" true None None None [((-1)%Z, "c")];
+       mkTxn "c" "Appl" false None (Some 1) (Some 3%N) []] /\
+    gr_absolute_indexes g = [(1%Z, 0); (3%Z, 2)] /\
+    group_verdict_gen ok_funcs never "STATELESS" None (view_group heap g) = Some ["b"].
+Proof. eexists. eexists. split; [vm_compute; reflexivity|]. repeat split; vm_compute; reflexivity. Qed.
+
+Example init_group_example_errors :
+  init_group_gen ex_contracts (mkGroupConfigGroup "op" [ex_a; ex_a]) = Raise E_repeated /\
+  init_group_gen ex_contracts (mkGroupConfigGroup "op" [ex_a; ex_b]) = Raise E_foreign /\
+  init_group_gen ex_contracts (mkGroupConfigGroup "op" [ex_c; mkGroupConfigTransaction "d" "txn" None None None (Some 3%Z) None]) = Raise E_same_abs /\
+  init_group_gen ex_contracts (mkGroupConfigGroup "op" [mkGroupConfigTransaction "d" "txn" (Some (mkGroupConfigFunctionCall "ls" "f")) None None None None]) = Raise E_app_is_lsig /\
+  init_group_gen ex_contracts (mkGroupConfigGroup "op" [mkGroupConfigTransaction "d" "txn" None None (Some (mkGroupConfigFunctionCall "app" "g")) None None]) = Raise E_lsig_is_app /\
+  init_group_gen ex_contracts (mkGroupConfigGroup "op" [mkGroupConfigTransaction "d" "txn" None None (Some (mkGroupConfigFunctionCall "zz" "g")) None None]) = Raise E_contract /\
+  init_group_gen ex_contracts (mkGroupConfigGroup "op" [mkGroupConfigTransaction "d" "txn" None None (Some (mkGroupConfigFunctionCall "ls" "g")) None None]) = Raise E_function /\
+  init_group_gen ex_contracts (mkGroupConfigGroup "op" [mkGroupConfigTransaction "d" "Pay" None None None None None]) = Raise EKeyError.
+Proof. repeat split; vm_compute; reflexivity. Qed.
